@@ -1,27 +1,191 @@
 /-
-C14 — CSV, array-frame and Matrix forms round-trip coordinates, slices and numbers (PARTIAL).
+C14 — CSV, array-frame and Matrix forms round-trip coordinates, slices and numbers (PARTIAL:
+pandas' text layer is trusted / opaque; the theorems are about the row algebra of
+`Model/Frame.lean`). Only property theorems here; helpers in `Lemmas/Frame.lean`.
+
+The group-by key lists are NOT part of the hand-written model: `Frame.groupCols` reads them from
+`Bermuda.Generated.Frame.groupByKeys`, regenerated from the source on every run, so the two
+`slices_preserved_*` theorems are re-proved against what `data_frame_input.py` says now. Before fix
+D9 `slices_preserved_keys` was false (country, currency, reinsurance_basis, loss_definition missing).
 -/
-import Bermuda.Model.Frame
-import Bermuda.Spec.C14
+import Bermuda.Lemmas.Frame
 namespace Bermuda.Properties.C14
 open Bermuda Bermuda.Frame Bermuda.Spec.C14
 
-/-- what the group-by key of a data-frame reader has to contain so that it determines a row's
-coordinates and its full slice metadata -/
-def requiredKeys : List String :=
-  ["period_start", "period_end", "evaluation_date", "risk_basis", "country", "currency",
-   "reinsurance_basis", "loss_definition", "per_occurrence_limit", "$detail_cols", "$loss_detail_cols"]
-
-def keysCover (fn : String) : Bool :=
-  match Generated.Frame.groupByKeys.find? (·.1 == fn) with
-  | some (_, ks) => requiredKeys.all ks.contains
-  | none => false
-
 /-- **slices_preserved (table form).** Both readers group by the coordinates, ALL six metadata
-columns and the detail / loss-detail columns — stated over the key lists regenerated from the
-source (this is the statement that was false before fix D9: four columns were missing). -/
+columns and the detail / loss-detail columns — a statement about the regenerated key lists. -/
 theorem slices_preserved_keys :
     Generated.Frame.ok = true ∧ keysCover "wide_data_frame_to_triangle" = true ∧
     keysCover "long_data_frame_to_triangle" = true := by decide
+
+/-- **slices_preserved.** In a reader whose generated key list covers the required keys, two rows
+with the same group key have the same full slice metadata (all six attributes, details and loss
+details): rows of different slices are never put in one group, whatever single attribute or
+detail distinguishes the slices. (`h₁`, `h₂`: a column that is not in the table has no entries.) -/
+theorem groupKey_determines_metadata {fn : String} (h : keysCover fn = true)
+    (cols d l : List String) (r₁ r₂ : Row)
+    (h₁ : ∀ k, k ∉ cols → Row.col r₁ k = .none) (h₂ : ∀ k, k ∉ cols → Row.col r₂ k = .none)
+    (hkey : (groupCols fn d l).map (keyEntry cols d l r₁) = (groupCols fn d l).map (keyEntry cols d l r₂)) :
+    rowMetadata r₁ d l = rowMetadata r₂ d l := by
+  have hcol : ∀ x ∈ groupCols fn d l, Row.col r₁ x = Row.col r₂ x :=
+    fun x hx => col_eq_of_key cols d l r₁ r₂ h₁ h₂ hkey hx
+  have six : ∀ k ∈ ["risk_basis", "country", "currency", "reinsurance_basis", "loss_definition",
+      "per_occurrence_limit"], Row.col r₁ k = Row.col r₂ k := by
+    intro k hk
+    apply hcol
+    refine mem_groupCols h d l (k := k) ?_ ?_
+    · simp only [List.mem_cons, List.not_mem_nil, or_false] at hk
+      rcases hk with rfl | rfl | rfl | rfl | rfl | rfl <;> decide
+    · simp only [List.mem_cons, List.not_mem_nil, or_false] at hk
+      rcases hk with rfl | rfl | rfl | rfl | rfl | rfl <;> simp [expandKey]
+  have hd : ∀ x ∈ d, Row.col r₁ x = Row.col r₂ x := fun x hx =>
+    hcol x (mem_groupCols h d l (k := "$detail_cols") (by decide) (by simpa [expandKey] using hx))
+  have hl : ∀ x ∈ l, Row.col r₁ x = Row.col r₂ x := fun x hx =>
+    hcol x (mem_groupCols h d l (k := "$loss_detail_cols") (by decide) (by simpa [expandKey] using hx))
+  have e1 := six "risk_basis" (by simp)
+  have e2 := six "country" (by simp)
+  have e3 := six "currency" (by simp)
+  have e4 := six "reinsurance_basis" (by simp)
+  have e5 := six "loss_definition" (by simp)
+  have e6 := six "per_occurrence_limit" (by simp)
+  unfold rowMetadata
+  simp only [e1, e2, e3, e4, e5, e6]
+  congr 2
+  · apply filterMap_congr'
+    intro x hx
+    rw [hd x (List.mem_filter.mp hx).1]
+  · apply filterMap_congr'
+    intro x hx
+    rw [hl x hx]
+
+
+/-- the two readers of the library satisfy the hypothesis of `groupKey_determines_metadata` -/
+theorem slices_preserved_wide (cols d l : List String) (r₁ r₂ : Row)
+    (h₁ : ∀ k, k ∉ cols → Row.col r₁ k = .none) (h₂ : ∀ k, k ∉ cols → Row.col r₂ k = .none)
+    (hkey : (groupCols "wide_data_frame_to_triangle" d l).map (keyEntry cols d l r₁) =
+            (groupCols "wide_data_frame_to_triangle" d l).map (keyEntry cols d l r₂)) :
+    rowMetadata r₁ d l = rowMetadata r₂ d l :=
+  groupKey_determines_metadata slices_preserved_keys.2.1 cols d l r₁ r₂ h₁ h₂ hkey
+
+theorem slices_preserved_long (cols d l : List String) (r₁ r₂ : Row)
+    (h₁ : ∀ k, k ∉ cols → Row.col r₁ k = .none) (h₂ : ∀ k, k ∉ cols → Row.col r₂ k = .none)
+    (hkey : (groupCols "long_data_frame_to_triangle" d l).map (keyEntry cols d l r₁) =
+            (groupCols "long_data_frame_to_triangle" d l).map (keyEntry cols d l r₂)) :
+    rowMetadata r₁ d l = rowMetadata r₂ d l :=
+  groupKey_determines_metadata slices_preserved_keys.2.2 cols d l r₁ r₂ h₁ h₂ hkey
+
+/-- **rows_count (wide).** The wide table has one row per cell and scenario: the number of rows
+is the sum over the cells of their common sample length. -/
+theorem rows_count_wide {t : List Cell} {tb : Table} (h : toWideRows t = .ok tb) :
+    wideRowCount t = some tb.rows.length := by
+  unfold toWideRows at h
+  dsimp only at h
+  cases hm : t.mapM (fun c => cellWideRows c (allMetadataNames t) (allFields t)) with
+  | error e => simp [hm, bind, Except.bind] at h
+  | ok rss =>
+    simp only [hm, bind, Except.bind] at h
+    cases hd : dropConstantScenario rss.flatten with
+    | error e => simp [hd] at h
+    | ok rows =>
+      simp only [hd, pure, Except.pure] at h
+      cases h
+      unfold wideRowCount
+      dsimp only
+      rw [mapM_transfer _ _ List.length ?_ t rss hm]
+      · simp [dropConstantScenario_length hd]
+      · intro a b hab
+        simp [cellWideRows_length hab]
+
+
+/-- **rows_count (long).** The long table has one row per cell, scenario and field present in
+that scenario. -/
+theorem rows_count_long {t : List Cell} {tb : Table} (h : toLongRows t = .ok tb) :
+    longRowCount t = some tb.rows.length := by
+  unfold toLongRows at h
+  dsimp only at h
+  cases hm : t.mapM (fun c => cellLongRows c (allMetadataNames t)) with
+  | error e => simp [hm, bind, Except.bind] at h
+  | ok rss =>
+    simp only [hm, bind, Except.bind] at h
+    cases hd : dropConstantScenario rss.flatten with
+    | error e => simp [hd] at h
+    | ok rows =>
+      simp only [hd, pure, Except.pure] at h
+      cases h
+      unfold longRowCount
+      dsimp only
+      rw [mapM_transfer _ _ List.length ?_ t rss hm]
+      · simp [dropConstantScenario_length hd]
+      · intro a b hab
+        obtain ⟨fds, hf, hl⟩ := cellLongRows_length hab
+        simp [hf, hl]
+
+
+/-! ### non-vacuity and a concrete round trip (kernel evaluation of the model) -/
+
+def exCell (ev : Date) (v : Val) (country : String) : Cell :=
+  { kind := .cumulative, ps := ⟨2020, 1, 1⟩, pe := ⟨2020, 12, 31⟩, ev := ev,
+    values := [("paid_loss", v)],
+    md := { country := some country, details := [("coverage", .str "BI")] } }
+
+/-- two slices that differ ONLY in `country`, two samples per cell -/
+def ex : List Cell :=
+  [exCell ⟨2020, 12, 31⟩ (.arr false [2] [1, 2]) "DE", exCell ⟨2021, 12, 31⟩ (.arr false [2] [3, 5/2]) "DE",
+   exCell ⟨2020, 12, 31⟩ (.arr false [2] [7, 8]) "US"]
+
+def backWide (t : List Cell) : Except Err (List Cell) :=
+  (toWideRows t).bind fun tb => fromWideRows tb ["paid_loss"] ["coverage"] []
+
+def backLong (t : List Cell) : Except Err (List Cell) :=
+  (toLongRows t).bind fun tb => fromLongRows tb []
+
+def okAnd {α} (p : α → Bool) : Except Err α → Bool
+  | .ok a => p a | .error _ => false
+
+theorem ex_rows : wideRowCount ex = some 6 ∧ longRowCount ex = some 6 := by decide +kernel
+
+/-- a one-cell triangle (the kernel cannot evaluate `List.mergeSort` on two or more elements, so
+the concrete round trip is stated for one scalar cell; larger inputs are the correspondence's job) -/
+def ex0 : List Cell := [exCell ⟨2020, 12, 31⟩ (.flt (5/2)) "DE"]
+
+theorem ex0_fromWide_toWide :
+    okAnd (fun out => wideSpec ex0 out && slicesSpec false ex0 out) (backWide ex0) = true := by
+  decide +kernel
+
+theorem ex0_fromLong_toLong :
+    okAnd (fun out => longSpec ex0 out && slicesSpec true ex0 out) (backLong ex0) = true := by
+  decide +kernel
+
+/-! ### statements not proved yet (the correspondence checks them on every run) -/
+
+-- OPEN fromWide_toWide
+--   theorem fromWide_toWide {t : List Cell} (h : WFcsv t) :
+--     okAnd (wideSpec t) ((toWideRows t).bind fun tb =>
+--        fromWideRows tb (allFields t) (detailCols t ++ lossDetailCols t) (lossDetailCols t)) = true
+--   WFcsv t: t canonical (C01) and non-empty; risk_basis ≠ none; no '' strings; detail / loss-detail keys
+--   disjoint from each other and from attribute / coordinate / field names and "scenario"; cumulative cells
+--   all-scalar or all-sample with one sample count and every field present when sampled; incremental cells
+--   scalar; no `none` values; distinct coordinates inside a slice.
+
+-- OPEN fromLong_toLong
+--   theorem fromLong_toLong {t : List Cell} (h : WFcsv t) :
+--     okAnd (longSpec t) ((toLongRows t).bind fun tb => fromLongRows tb []) = true
+--   (loss details come back as details: `long_csv_to_triangle` passes no loss_detail_cols)
+
+-- OPEN fromArrayFrame_toArrayFrame
+--   theorem fromArrayFrame_toArrayFrame {t : List Cell} {field : String} {res : Int}
+--     (h : RegularSingleSlice t res) (hres : res ∈ [1, 3, 6, 12]) (md : Metadata) (hmd : ∀ c ∈ t, c.md = md) :
+--     okAnd (backSpec (t.filter (·.values.contains field)))
+--       ((toArrayFrame t field).bind fun rows => fromArrayFrame rows field md none) = true
+--   (periods of `res` months starting on a first of month, evaluations at month ends with integer lags;
+--    needs the C12 inverse law `addMonths pe (devLagMonths pe ev) = ev` on month ends, and — for the
+--    inferred resolution — `roundHalfEven (devLagMonths p₀ p₁) = res`, which is where D19 was)
+
+-- OPEN fromMatrix_toMatrix
+--   theorem fromMatrix_toMatrix {t : List Cell} (h : MonthAlignedSemiRegular t) (hc : cumulative t)
+--     (hgrid : ∀ c ∈ t, (c.devLag - devOrigin t) % min (expRes t) (devRes t) = 0) :
+--     okAnd (backSpec t) ((toMatrix t).bind fromMatrix) = true
+--   (uses `devSpacing = min expResolution devResolution` on both sides — D10 — and C12's
+--    `addMonths`/`monthToId`/`idToMonth` laws)
 
 end Bermuda.Properties.C14
